@@ -216,6 +216,18 @@ Theorem C10_convert_preserves_shape_any : forall src dst h h' shape, analyze_fam
 Proof. exact convert_preserves_shape_any. Qed.
 Print Assumptions C10_convert_preserves_shape_any.
 
+(* the zooms clause for EVERY shape, FreeSurfer conventions included.  What the code does with pixdim there:
+   set_data_shape stores as many extents as the shape has under every convention (dim[0] is the rank; a large
+   vector becomes (-1, 1, 1, ...) with the length in glmin, 163842 becomes 27307 x 1 x 6), resets
+   pixdim[rank+1:] to 1, and set_zooms then writes pixdim[1:rank+1]; get_zooms reads pixdim[1:dim[0]+1].  So the
+   zooms are preserved (cast to the destination float width) whenever the conversion succeeds. *)
+Theorem C10_convert_preserves_zooms_any : forall src dst h h' shape,
+  analyze_family src = true -> analyze_family dst = true -> hdr_fits (layout_of src) h = true ->
+  from_header src dst false h = COk h' -> get_shape src h = COk shape -> shape <> [] ->
+  get_zooms dst h' = map (f_cast (pix_w src) (pix_w dst)) (get_zooms src h).
+Proof. exact convert_preserves_zooms_any. Qed.
+Print Assumptions C10_convert_preserves_zooms_any.
+
 (* conversion with check=True: from_header(check=False) followed by check_fix, refused when a report
    reaches level 40.  Everything the battery does not repair (every field but sizeof_hdr, bitpix, pixdim,
    vox_offset, qform_code, sform_code, eol_check, version) is as after the unchecked conversion, hence the
@@ -268,6 +280,23 @@ Proof.
     + now apply sig_analyze. + now apply sig_analyze. + now apply sig_analyze. + now apply sig_mgh. + reflexivity.
 Qed.
 Print Assumptions C10_written_header_has_signature.
+
+(* ... and the premise "no public setter writes a protected field" is a table fact: the write set of every
+   public setter of every header class (Tables.setter_writes_*, measured on every run by diffing the fields
+   before / after calls with random arguments) is disjoint from the protected fields (vm_compute), so any
+   sequence of setter writes keeps the class signature *)
+Theorem C10_setters_keep_signature : forall c be ws,
+  forallb (fun s => forallb (fun i => negb (memZ i (protected_fields c))) s) (setter_writes_of c) = true
+  /\ (Forall (fun w => setter_write c w = true) ws ->
+      (is_nifti c = true -> is_nifti1 c = false ->
+         signature c (n2_cifti (written c be ws)) (written c be ws) = true)
+      /\ ((is_nifti c = false \/ is_nifti1 c = true) -> forall cf, signature c cf (written c be ws) = true)).
+Proof.
+  intros c be ws. split; [apply setters_avoid_protected|]. intros H.
+  pose proof (C10_written_header_has_signature c be ws (setter_writes_allowed c ws H)) as [A B].
+  split; [intros N N1; exact (proj1 (A N N1))|exact B].
+Qed.
+Print Assumptions C10_setters_keep_signature.
 
 (* the protection of smin matters: with raw item assignment (hdr['smin'] = 0x0031696e, a value that fits
    the field) an Analyze header spells the NIfTI-1 magic 'ni1\0' at 344:348 and loses its signature - such
